@@ -15,6 +15,7 @@
 """Utilities for serializing and deserializing state objects to and from JSON."""
 import functools
 import json
+import re
 from collections import deque
 from dataclasses import is_dataclass
 from datetime import datetime
@@ -106,6 +107,8 @@ def encode_to_dict(obj: Any, refs: Dict[int, Any]):
             value = {"__type": "Action", "value": obj.to_dict()}
         elif isinstance(obj, datetime):
             value = {"__type": "datetime", "value": obj.isoformat()}
+        elif isinstance(obj, re.Pattern):
+            value = {"__type": "regex", "value": obj.pattern, "flags": obj.flags}
         elif isinstance(obj, Enum):
             value = {"__type": "enum", "__class": type(obj).__name__, "value": obj.name}
         elif isinstance(obj, deque):
@@ -173,6 +176,9 @@ def decode_from_dict(d: Any, refs: Dict[int, Any]):
 
             elif d_type == "datetime":
                 value = datetime.fromisoformat(d["value"])
+
+            elif d_type == "regex":
+                value = re.compile(d["value"], d["flags"])
 
             elif d_type == "deque":
                 value = deque(decode_from_dict(d["value"], refs))
